@@ -19,7 +19,7 @@ from sim.terms import EX, XSD, T, key, skey, u
 
 ID = "C13"
 LEVEL = "exploration"
-TIERS = {"quick": {"runs": 2400, "wall_cap": 600}, "thorough": {"runs": 50000, "wall_cap": 3300}}
+TIERS = {"quick": {"runs": 3200, "wall_cap": 600}, "thorough": {"runs": 50000, "wall_cap": 3300}}
 RULE = (
     "each evaluation is one seeded state (Graph, Dataset default_union off/on, ConjunctiveGraph; <=4 graphs incl. a blank-node-named and an "
     "empty created graph, falsy terms, an rdf:List) followed by a seeded schedule of <=25 read-only calls: serialise in every registered "
